@@ -197,6 +197,7 @@ class TRed(TReal):
         super().__init__("dec")
         self.side_exact = []
         self._seen_side = set()
+        self.fresh_exact = {}
 
     def _side(self, desc, f, kind, exact=None):
         k = (desc, f.get_id(), tuple(c.get_id() if hasattr(c, "get_id") else c for c in self.cur_pc))
@@ -235,11 +236,13 @@ class TRed(TReal):
         kind = (op, "const" if a.exact is not None else "sym", "const" if b.exact is not None else "sym")
         t = x * y if op == "Mul" else x / y
         if op == "Div":
-            self._side("decimal division: divisor non-zero", y != 0, kind)
+            # exact= the unrounded value of the divisor when it is itself a rounded result (for witnesses that clearly round to zero)
+            self._side("decimal division: divisor non-zero", y != 0, kind, exact=self.fresh_exact.get(y.get_id()))
         self._side("decimal %s result representable (|exact| < 1e20)" % op, zabs(t) < Q(DEC_LIMIT), kind, exact=t)
         if key in self.memo:
             return self.memo[key]
         r = self.fresh()
+        self.fresh_exact[r.get_id()] = t
         self.cons.append(z3.And(r - t <= Q(EPS_DEC), t - r <= Q(EPS_DEC)))
         res = Amount(r)
         self.memo[key] = res
